@@ -84,7 +84,7 @@ class Network:
         if action.is_exploit() and host_compromised:
             # host already compromised so exploits don't fail due to randomness
             pass
-        elif np.random.rand() > action.prob:
+        elif np.random.rand() >= action.prob:
             return next_state, ActionResult(False, 0.0, undefined_error=True)
 
         if action.is_subnet_scan():
